@@ -26,7 +26,18 @@
 
    (This is the order of the repaired code.  In the original code
    utxoScanner.Stop came BEFORE workManager.Stop; see [orig_order] and
-   finding F20.)                                                          *)
+   finding F20.)
+
+   The table below is written by hand, but it is TIED to the source: the
+   translator harness/cmd/genwaitsites lists the blocking sites of the
+   functions named here (selects with their alternatives, bare channel
+   operations, Wait calls, the steps of the Stop functions) into
+   Generated/WaitSites.v on every check run; C17/Sites.v gives every site of
+   this table its references into that list with the role of each
+   alternative, and C17/Tie.v proves by computation that the references match
+   the generated list exactly, that the releases claimed here are
+   alternatives there, that the order of ChainService.Stop is [stop_order],
+   and that every generated site is accounted for.                        *)
 From Coq Require Import ZArith List Bool.
 Import ListNotations.
 Open Scope Z_scope.
@@ -190,6 +201,10 @@ Definition g_cf_first_peer := mkSite 59 (Some CBlock) [RQuit CBlock] [].
 
 (* chanutils/batch_writer.go manageNewItems: select has <-b.quit *)
 Definition g_batch_writer := mkSite 70 (Some CBatch) [RQuit CBatch] [].
+(* chanutils/queue.go: the goroutine of the writer's unbounded queue, stopped
+   (close(cq.quit); wg.Wait) at the end of BatchWriter.Stop: every select has
+   <-cq.quit *)
+Definition g_batch_queue := mkSite 71 (Some CBatch) [RQuit CBatch] [].
 
 (* neutrino.go peerHandler: select has <-s.quit *)
 Definition g_svc_peer_handler := mkSite 80 (Some CSvc) [RQuit CSvc] [].
@@ -207,7 +222,7 @@ Definition internal_sites : list site :=
    g_sub_handler; g_sub_forwarder;
    g_block_handler; g_cf_cond; g_cf_retry; g_cf_query_all; g_cf_batch; g_cf_getblock;
    g_cf_notify; g_cf_in_peers; g_cf_in_submit; g_cf_first_peer;
-   g_batch_writer;
+   g_batch_writer; g_batch_queue;
    g_svc_peer_handler; g_svc_misc; g_svc_in_newpeer].
 
 (* ------------------------------------------------------------------ *)
